@@ -1,4 +1,5 @@
 import TakVerif.Proofs.LegalShape
+import TakVerif.Proofs.LegalShapeConverse
 import TakVerif.Proofs.ServerRT
 import TakVerif.Proofs.Examples
 import TakVerif.Proofs.Reach
@@ -19,6 +20,8 @@ speaks about — "every legal move":
 `Move.Equal` does not compare (`equal_iff_normalize`), the rule book's reading `Spec.decode` does not look at it and
 neither does `MovePreallocated` (`normalize_transparent`).  Nothing else needs normalising: coordinates, type
 code and — for slides — the whole drop word of an accepted move are already those of a legal shape.
+Conversely every legal shape is legal in some position (`legalShape_legal_somewhere`), so `LegalShape size` *is* the set of
+normal forms of legal moves (`legalShape_iff_legal_somewhere`).
 The normalisation is not idle: `ptn.FormatMove` *does* read the `Slides` word of a placement
 (`ptn_junk_placement_not_roundtrip`), `playtak.FormatServer` does not (`server_wire_of_legal`). -/
 namespace C11
@@ -107,6 +110,38 @@ theorem normalize_mem_allMoves (basis : Array W) (p q : Pos) (m : Move) (hwf : W
   have h1 := (equal_iff_normalize m' m).1 heq
   have h2 := legalShape_normal (allMoves_legalShape_wf basis p hwf m' hm')
   rw [← h1, h2]; exact hm'
+
+/-! ## … and legal shape implies legality somewhere: the domain of C11 is exact -/
+
+/-- **Every legal shape is legal somewhere.**  For a move value of legal shape on a `size` board there is a position of
+that size in which the rule book accepts it: a placement on the empty board at ply 2 with a stone and a capstone in
+reserve; a slide from a stack of exactly as many of the mover's flats as it carries, on an otherwise empty board. -/
+theorem legalShape_legal_somewhere (size : Nat) (m : Move) (h : LegalShape size m) :
+    ∃ s : Spec.State, s.size = size ∧ s.squares.length = size * size ∧ (Spec.step s (Spec.decode m)).isSome = true :=
+  legalShape_legal_somewhere' size m h
+
+/-- **`LegalShape size` is exactly the set of normal forms of moves that are legal in some position of that size**
+(sizes 3..8): the domain of `ptn_short_rt`, `ptn_long_rt`, `server_rt`, `notations_agree`, `annotations_ignored` is
+"every legal move on every board size", no more and — up to `Move.Equal` — no less. -/
+theorem legalShape_iff_legal_somewhere (size : Nat) (h3 : 3 ≤ size) (h8 : size ≤ 8) (m : Move) :
+    LegalShape size m ↔
+      normalize m = m ∧ ∃ s : Spec.State, s.size = size ∧ (Spec.step s (Spec.decode m)).isSome = true := by
+  constructor
+  · intro h
+    obtain ⟨s, hs, _, hl⟩ := legalShape_legal_somewhere size m h
+    exact ⟨legalShape_normal h, s, hs, hl⟩
+  · rintro ⟨hn, s, hs, hl⟩
+    cases hst : Spec.step s (Spec.decode m) with
+    | none => rw [hst] at hl; cases hl
+    | some s' =>
+      have := step_legalShape s s' m (by rw [hs]; exact h3) (by rw [hs]; exact h8) hst
+      rw [hn, hs] at this
+      exact this
+
+/-- a full-length slide that reaches the far edge of an 8×8 board is legal somewhere (instance of the above) -/
+example : ∃ s : Spec.State, s.size = 8 ∧ s.squares.length = 8 * 8 ∧
+    (Spec.step s (Spec.decode ⟨0, 3, Facts.mtSlideRight, 0x1111112#32⟩)).isSome = true :=
+  legalShape_legal_somewhere 8 _ (by decide)
 
 /-! ## the notation theorems, for every move the engine accepts -/
 
